@@ -117,6 +117,11 @@ def run(s):
     s.oblige("C14.shear_task_inputs_assigned_before_use", shear_inputs_set_before_use, ["tasks.PhononContributionTask.get_modulus_isothermal", "tasks.PhononContributionTaskList.calculate"],
              kind="finite")
 
+    # ---------------- 2b. order of property access on the (T,P) interfaces: every quantity read in two interleaved orders on two calculators alive at once is the
+    # conversion of its OWN volume-base quantity (the call-site obligation of C06, registered here: a result that depends on what was read before is an isolation defect)
+    from props import C06
+    C06.run(core.SubSession(s, lambda n: n.replace("C06.", "C14.access_order."), lambda n: "forwarding_of_every_quantity" in n))
+
     # ---------------- 3. idempotence of filling
     fill = fill_env.fill_module()
 
@@ -154,7 +159,7 @@ def run(s):
 
     # ---------------- 4. bounded: whole process
     process_runs(s)
-    s.min_obligations = 20
+    s.min_obligations = 21
 
 
 def replay_reads(env, kind):
